@@ -267,6 +267,61 @@ def upgrade (acceptKey : Bytes → Bytes) (u : Upgrader) (respHdr : Option Heade
           (fun p => (p.1, p.2.map sanitize))
         .accept (fixed ++ extra) compress sub
 
+/-! ## client.go: parseURL, hostPortNoPort -/
+
+structure WsURL where
+  scheme : Bytes      -- "ws" / "wss"
+  host : Bytes        -- host[:port]
+  path : Bytes        -- Go `URL.Opaque`: the path, "/" when absent
+  rawQuery : Bytes
+  deriving DecidableEq
+
+def stripPrefix (pre : Bytes) (s : Bytes) : Option Bytes :=
+  if pre.isPrefixOf s then some (s.drop pre.length) else none
+
+/-- `strings.Index(s, c) >= 0`: the text before and after the first `c`. -/
+def cutAt (c : UInt8) : Bytes → Option (Bytes × Bytes)
+  | [] => none
+  | b :: t =>
+    if b == c then some ([], t)
+    else match cutAt c t with
+      | some (x, y) => some (b :: x, y)
+      | none => none
+
+/-- `parseURL` after the scheme: query, path, host; user information is refused. -/
+def parseAfterScheme (scheme s : Bytes) : Option WsURL :=
+  let sq : Bytes × Bytes := match cutAt 63 s with
+    | some (a, b) => (a, b)
+    | none => (s, [])
+  let ho : Bytes × Bytes := match cutAt 47 sq.1 with
+    | some (a, b) => (a, 47 :: b)
+    | none => (sq.1, [47])
+  if ho.1.contains 64 then none else some { scheme := scheme, host := ho.1, path := ho.2, rawQuery := sq.2 }
+
+/-- `parseURL` (`none` = errMalformedURL). -/
+def parseURL (s : Bytes) : Option WsURL :=
+  match stripPrefix (ascii "ws://") s with
+  | some r => parseAfterScheme (ascii "ws") r
+  | none =>
+    match stripPrefix (ascii "wss://") s with
+    | some r => parseAfterScheme (ascii "wss") r
+    | none => none
+
+/-- the request target `Request.Write` puts on the request line for a URL with `Opaque` set -/
+def requestURI (u : WsURL) : Bytes :=
+  -- `URL.RequestURI` with `Opaque` set: an opaque part that begins with `//` is prefixed by the scheme
+  (if (ascii "//").isPrefixOf u.path then u.scheme ++ [58] ++ u.path else u.path)
+    ++ (if u.rawQuery.isEmpty then [] else 63 :: u.rawQuery)
+
+def lastIndex (c : UInt8) (s : Bytes) : Int :=
+  (s.zipIdx.foldl (fun acc p => if p.1 == c then (p.2 : Int) else acc) (-1))
+
+/-- `hostPortNoPort`: (host:port to dial, host without port) -/
+def hostPortNoPort (u : WsURL) : Bytes × Bytes :=
+  let i := lastIndex 58 u.host
+  if i > lastIndex 93 u.host then (u.host, u.host.take i.toNat)
+  else (u.host ++ (if u.scheme == ascii "wss" || u.scheme == ascii "https" then ascii ":443" else ascii ":80"), u.host)
+
 /-! ## client.go: Dialer.Dial -/
 
 structure Dialer where
